@@ -101,6 +101,9 @@ def nen_agreement(S, I, variant):
          xdiv_np(xadd(XR.const(mkint(isub(w, l))), ONE), XR.const(2)))
     S.holds("assorter value in {0, 1/2, 1}, bound 1", band(xcmp(">=", val, ZERO), xcmp("<=", val, ONE),
                                                           bterm(I.equal(asn.attrs["assorter"].attrs["upper_bound"], 1))))
+    from .audit import test_config
+    test_config(S, I, asn, con, "[IRV_ELIMINATION]")
+    S.holds("test.u = assorter bound", bterm(I.equal(asn.attrs["test"].attrs["u"], asn.attrs["assorter"].attrs["upper_bound"])))
 
 
 @script(["C14", "C06"], "WINNER_ONLY assorter == RAIRE NEB verdicts (all ballots over 4 candidates)")
@@ -137,3 +140,44 @@ def neb_agreement(S, I, variant):
     S.eq("audit assorter value = (w - l + 1)/2 with the generator's verdicts", val,
          xdiv_np(xadd(XR.const(mkint(isub(w, l))), ONE), XR.const(2)))
     S.holds("assorter value in {0, 1/2, 1}", band(xcmp(">=", val, ZERO), xcmp("<=", val, ONE)))
+    from .audit import test_config
+    test_config(S, I, asn, con, "[WINNER_ONLY]")
+    S.holds("test.u = assorter bound = 1", band(bterm(I.equal(asn.attrs["test"].attrs["u"], 1)), bterm(I.equal(asn.attrs["assorter"].attrs["upper_bound"], 1))))
+
+
+# ------------------------------------------------------------------ C15 hypothesis: the shipped difficulty functions
+
+@script(["C15", "C04"], "sample_estimator.bp_estimate+cp_estimate/post and monotonicity")
+def estimators_post(S, I, variant):
+    """exact closed forms, and: for fixed (winner+loser, total) resp. fixed total the difficulty strictly decreases as the
+    winner-loser margin grows (the hypothesis under which 'cheapest assertion' = 'largest margin')"""
+    w = S.integer("winner", lo=1)
+    l = S.integer("loser", lo=0)
+    ctx().assume(zi(iterm(w)) > zi(iterm(l)))
+    tot = S.integer("total", lo=1)
+    ctx().assume(zi(iterm(tot)) >= zi(iterm(w)) + zi(iterm(l)))
+    o = mkint(isub(isub(tot, w), l))
+    bp = I.get(SE, "bp_estimate")
+    cp = I.get(SE, "cp_estimate")
+    S.native_desc = None
+    rb, exc = guard(S, I, lambda: I.call(bp, [w, l, o, tot], {}))
+    if exc:
+        return
+    rc, exc = guard(S, I, lambda: I.call(cp, [w, l, o, tot], {}))
+    if exc:
+        return
+    W, L, T = XR.const(w), XR.const(l), XR.const(tot)
+    p = xdiv_np(xadd(W, L), T)
+    q = xdiv_np(xsub(W, L), xadd(W, L))
+    S.eq("bp_estimate = 1/(p q^2), p = (w+l)/total, q = (w-l)/(w+l)", rb, xdiv_np(ONE, xmul(p, xmul(q, q))))
+    S.eq("cp_estimate = total/(w - l)", rc, xdiv_np(T, xsub(W, L)))
+    S.holds("both difficulties are positive and finite", band(xr(rb).fin(), xr(rc).fin(), xcmp(">", rb, ZERO), xcmp(">", rc, ZERO)))
+    # one more vote moved from the loser to the winner (same w+l, same total): strictly easier
+    w2, l2 = mkint(iadd(w, 1)), mkint(isub(l, 1))
+    c = ctx()
+    if c.decide(icmp(">=", l2, 0)):
+        rb2, exc = guard(S, I, lambda: I.call(bp, [w2, l2, o, tot], {}))
+        rc2, exc2 = guard(S, I, lambda: I.call(cp, [w2, l2, o, tot], {}))
+        if not exc and not exc2:
+            S.holds("bp strictly decreases as the margin grows", xcmp("<", rb2, rb))
+            S.holds("cp strictly decreases as the margin grows", xcmp("<", rc2, rc))
